@@ -24,8 +24,11 @@ def e2e(ctx):
     import json, os
     import tla, vcheck
     from props import tracker_common as tc2
-    ctx.tlc("Cluster.tla", "Cluster_mc.cfg", workers=12, timeout=2400)
+    ctx.tlc("Cluster.tla", "Cluster_mc_quick.cfg", workers=12, timeout=2400)
+    ctx.tlc("Cluster.tla", "Cluster_live.cfg", workers=8, timeout=2400)
     if not ctx.quick():
+        # three operations with one daemon outage (10.9 M distinct states, ~5 min)
+        ctx.tlc("Cluster.tla", "Cluster_mc.cfg", workers=12, timeout=3600)
         # two CIDs: PinUpdate and cross-CID repinning are reachable (11.5 M distinct states, ~10 min)
         ctx.tlc("Cluster.tla", "Cluster_mc2.cfg", workers=12, timeout=3600)
     n = 12 if ctx.quick() else 150
@@ -36,7 +39,7 @@ def e2e(ctx):
         acts = []
         for st in beh[1:]:
             a = st["state"]["act"]
-            if a["name"] in ("Pin", "Unpin", "PeerFail", "PinUpdate", "PinExpiring", "StateSyncAll"):
+            if a["name"] in ("Pin", "Unpin", "PeerFail", "PinUpdate", "PinExpiring", "StateSyncAll", "IpfsDown", "IpfsHeal", "RecoverAll"):
                 acts.append(a)
         if acts:
             scripts.append({"id": "e%d" % k, "peers": ["p1", "p2", "p3"], "cids": ["c1", "c2", "c3"], "acts": acts})
